@@ -1,0 +1,603 @@
+//! Verification harness (feature `verif`, property C13): drives the real app-side `Mempool`
+//! from an op script (`$VERIF_IN`) and writes one observation line per op to `$VERIF_OUT`.
+//!
+//! Script grammar (one op per line, all numbers decimal):
+//!   case <parked_max_tx_count> <accounts> <assets>   fresh mempool, chain state reset
+//!   tx <id> <acct> <nonce> <group 1..4> <asset> <amount> <fee_asset>   define (not insert) a tx
+//!   bump <acct> <k>            chain nonce of <acct> += k (saturating)
+//!   bal <acct> <asset> <amt>   chain balance
+//!   fee <transfer_base> <init_bridge_account_base>
+//!   ins <id>                   the service's CheckTx: `service::mempool::check_tx` (+ the
+//!                              removal-cache acknowledgement of `handle_check_tx_request`)
+//!   insd <id>                  `Mempool::insert` directly (nonce, balances, costs read from the
+//!                              chain state), only if `transaction_status` is `None`
+//!   rm <id>                    `remove_tx_invalid(.., FailedExecution)`
+//!   maint <recost 0|1> <height> <included id>*       `run_maintenance`
+//!
+//! Every observation line is `<op echo> res=<class> | <dump>`; the dump lists, with script ids
+//! and account/asset indices only: pending and parked containers (acct.nonce.id.costs), the
+//! tracked set, `len`, `pending_nonce` per account, `transaction_status` of every defined id,
+//! the removal cache, the recent-execution-results entries, and the builder queue.
+use std::{
+    collections::{
+        BTreeMap,
+        HashMap,
+    },
+    fmt::Write as _,
+    panic::AssertUnwindSafe,
+    sync::Arc,
+};
+
+use astria_core::{
+    crypto::{
+        SigningKey,
+        ADDRESS_LENGTH,
+    },
+    primitive::v1::{
+        asset::{
+            Denom,
+            IbcPrefixed,
+        },
+        RollupId,
+        TransactionId,
+    },
+    protocol::{
+        fees::v1::FeeComponents,
+        transaction::v1::action::{
+            IbcRelayerChange,
+            InitBridgeAccount,
+            SudoAddressChange,
+            Transfer,
+        },
+    },
+};
+use futures::FutureExt as _;
+use tendermint::abci::types::ExecTxResult;
+
+use super::{
+    get_account_balances,
+    transactions_container::{
+        TimemarkedTransaction,
+        TransactionsContainer,
+        TransactionsForAccount,
+    },
+    InsertionError,
+    InsertionStatus,
+    Mempool,
+    RemovalReason,
+    TransactionStatus,
+};
+use crate::{
+    accounts::{
+        StateReadExt as _,
+        StateWriteExt as _,
+    },
+    assets::StateWriteExt as _,
+    authority::StateWriteExt as _,
+    checked_transaction::CheckedTransaction,
+    fees::StateWriteExt as _,
+    ibc::StateWriteExt as _,
+    service::mempool::{
+        check_tx,
+        CheckTxOutcome,
+    },
+    test_utils::{
+        astria_address,
+        Fixture,
+    },
+};
+
+struct TxDef {
+    tx: Arc<CheckedTransaction>,
+    acct: usize,
+    group: u8,
+}
+
+struct Ctx {
+    accounts: Vec<SigningKey>,
+    addr_to_acct: HashMap<[u8; ADDRESS_LENGTH], usize>,
+    assets: Vec<Denom>,
+    ibc_to_asset: HashMap<IbcPrefixed, usize>,
+    txs: BTreeMap<u64, TxDef>,
+    real_to_id: HashMap<TransactionId, u64>,
+}
+
+impl Ctx {
+    fn new() -> Self {
+        Self {
+            accounts: vec![],
+            addr_to_acct: HashMap::new(),
+            assets: vec![],
+            ibc_to_asset: HashMap::new(),
+            txs: BTreeMap::new(),
+            real_to_id: HashMap::new(),
+        }
+    }
+
+    fn id_of(&self, real: &TransactionId) -> String {
+        self.real_to_id
+            .get(real)
+            .map_or_else(|| "?".to_string(), ToString::to_string)
+    }
+}
+
+fn account_key(acct: usize) -> SigningKey {
+    // own keys: never the crate's ALICE / BOB / CAROL / SUDO
+    SigningKey::from([u8::try_from(101 + acct).unwrap(); 32])
+}
+
+fn asset_denom(asset: usize) -> Denom {
+    format!("verifasset{asset}").parse().unwrap()
+}
+
+fn derived_address(id: u64, tag: u8) -> astria_core::primitive::v1::Address {
+    let mut bytes = [tag; ADDRESS_LENGTH];
+    bytes[..8].copy_from_slice(&id.to_be_bytes());
+    astria_address(&bytes)
+}
+
+fn reason_code(reason: &RemovalReason) -> String {
+    match reason {
+        RemovalReason::Expired => "exp".to_string(),
+        RemovalReason::NonceStale => "stale".to_string(),
+        RemovalReason::LowerNonceInvalidated => "lower".to_string(),
+        RemovalReason::FailedExecution(_) => "fail".to_string(),
+        RemovalReason::InternalError => "int".to_string(),
+        RemovalReason::IncludedInBlock {
+            height, ..
+        } => format!("incl{height}"),
+    }
+}
+
+fn insertion_error_code(error: &InsertionError) -> &'static str {
+    match error {
+        InsertionError::AlreadyPresent => "already_present",
+        InsertionError::NonceTooLow => "nonce_too_low",
+        InsertionError::NonceTaken => "nonce_taken",
+        InsertionError::NonceGap => "nonce_gap",
+        InsertionError::AccountSizeLimit => "account_size_limit",
+        InsertionError::AccountBalanceTooLow => "balance_too_low",
+        InsertionError::ParkedSizeLimit => "parked_size_limit",
+    }
+}
+
+fn status_code(status: Option<TransactionStatus>) -> String {
+    match status {
+        None => "N".to_string(),
+        Some(TransactionStatus::Pending) => "P".to_string(),
+        Some(TransactionStatus::Parked) => "K".to_string(),
+        Some(TransactionStatus::Removed(reason)) => format!("R{}", reason_code(&reason)),
+    }
+}
+
+/// The costs stored with a container entry, read back through `deduct_costs` (the field is
+/// private to `transactions_container`).
+fn costs_of(ctx: &Ctx, ttx: &TimemarkedTransaction) -> String {
+    let mut probe: HashMap<IbcPrefixed, u128> = ctx
+        .assets
+        .iter()
+        .map(|denom| (denom.to_ibc_prefixed(), u128::MAX))
+        .collect();
+    if ttx.deduct_costs(&mut probe).is_err() {
+        return "?".to_string();
+    }
+    let mut costs: Vec<(usize, u128)> = probe
+        .into_iter()
+        .map(|(asset, left)| (ctx.ibc_to_asset[&asset], u128::MAX - left))
+        .filter(|(_, cost)| *cost != 0)
+        .collect();
+    costs.sort_unstable();
+    if costs.is_empty() {
+        return "-".to_string();
+    }
+    costs
+        .iter()
+        .map(|(asset, cost)| format!("{asset}:{cost}"))
+        .collect::<Vec<_>>()
+        .join("/")
+}
+
+fn container_dump<A, C>(ctx: &Ctx, container: &C) -> String
+where
+    A: TransactionsForAccount,
+    C: TransactionsContainer<A>,
+{
+    let mut entries: Vec<(String, u32, String)> = vec![];
+    for (address, account_txs) in container.txs() {
+        let acct = ctx
+            .addr_to_acct
+            .get(address)
+            .map_or_else(|| "?".to_string(), ToString::to_string);
+        if account_txs.txs().is_empty() {
+            entries.push((acct.clone(), 0, format!("{acct}.empty")));
+        }
+        for (nonce, ttx) in account_txs.txs() {
+            let key_note = if *nonce == ttx.nonce() {
+                String::new()
+            } else {
+                format!("!key{nonce}")
+            };
+            entries.push((
+                acct.clone(),
+                *nonce,
+                format!(
+                    "{acct}.{}{key_note}.{}.{}",
+                    ttx.nonce(),
+                    ctx.id_of(ttx.id()),
+                    costs_of(ctx, ttx)
+                ),
+            ));
+        }
+    }
+    entries.sort();
+    entries
+        .into_iter()
+        .map(|(_, _, text)| text)
+        .collect::<Vec<_>>()
+        .join(",")
+}
+
+async fn dump(ctx: &Ctx, mempool: &Mempool) -> String {
+    let mut out = String::new();
+    {
+        let inner = mempool.inner.read().await;
+        write!(out, "pend={}", container_dump(ctx, &inner.pending)).unwrap();
+        write!(out, " park={}", container_dump(ctx, &inner.parked)).unwrap();
+        let mut contained: Vec<String> =
+            inner.contained_txs.iter().map(|id| ctx.id_of(id)).collect();
+        contained.sort_by_key(|id| id.parse::<u64>().unwrap_or(u64::MAX));
+        write!(out, " cont={}", contained.join(",")).unwrap();
+        let mut removal: Vec<(u64, String)> = inner
+            .comet_bft_removal_cache
+            .cache
+            .iter()
+            .map(|(id, reason)| {
+                (
+                    ctx.real_to_id.get(id).copied().unwrap_or(u64::MAX),
+                    reason_code(reason),
+                )
+            })
+            .collect();
+        removal.sort();
+        write!(
+            out,
+            " rc={}",
+            removal
+                .iter()
+                .map(|(id, reason)| format!("{id}:{reason}"))
+                .collect::<Vec<_>>()
+                .join(",")
+        )
+        .unwrap();
+        let recent: Vec<String> = ctx
+            .txs
+            .iter()
+            .filter_map(|(id, def)| {
+                inner
+                    .recent_execution_results
+                    .get(def.tx.id())
+                    .map(|result| format!("{id}:{}", result.block_height()))
+            })
+            .collect();
+        write!(out, " rr={}", recent.join(",")).unwrap();
+    }
+    write!(out, " len={}", mempool.len().await).unwrap();
+    let mut pending_nonces = vec![];
+    for key in &ctx.accounts {
+        pending_nonces.push(
+            mempool
+                .pending_nonce(&key.address_bytes())
+                .await
+                .map_or_else(|| "-".to_string(), |nonce| nonce.to_string()),
+        );
+    }
+    write!(out, " pn={}", pending_nonces.join(",")).unwrap();
+    let mut statuses = vec![];
+    for (id, def) in &ctx.txs {
+        statuses.push(format!(
+            "{id}:{}",
+            status_code(mempool.transaction_status(def.tx.id()).await)
+        ));
+    }
+    write!(out, " st={}", statuses.join(",")).unwrap();
+    let queue: Vec<String> = mempool
+        .builder_queue()
+        .await
+        .iter()
+        .map(|tx| ctx.id_of(tx.id()))
+        .collect();
+    write!(out, " q={}", queue.join(",")).unwrap();
+    out
+}
+
+async fn set_sudo_for(fixture: &mut Fixture, def: &TxDef, ctx: &Ctx) {
+    if def.group <= 2 {
+        let address = ctx.accounts[def.acct].address_bytes();
+        fixture.state_mut().put_sudo_address(address).unwrap();
+        fixture.state_mut().put_ibc_sudo_address(address).unwrap();
+    }
+}
+
+#[tokio::test]
+#[expect(clippy::too_many_lines, reason = "op interpreter")]
+async fn drive() {
+    let Ok(input_path) = std::env::var("VERIF_IN") else {
+        return;
+    };
+    let input = std::fs::read_to_string(input_path).unwrap();
+    let mut out = String::new();
+    let mut fixture = Fixture::default_initialized().await;
+    let metrics = fixture.metrics();
+    let mut mempool = Mempool::new(metrics, 100, 100_000);
+    let mut ctx = Ctx::new();
+    let mut known_accounts = 0usize;
+    let mut known_assets = 0usize;
+
+    for line in input.lines() {
+        let toks: Vec<&str> = line.split_whitespace().collect();
+        let Some(&cmd) = toks.first() else { continue };
+        let num = |k: usize| -> u128 { toks[k].parse().unwrap() };
+        let res: String = match cmd {
+            "case" => {
+                let parked_max = usize::try_from(num(1)).unwrap();
+                let accounts = usize::try_from(num(2)).unwrap();
+                let assets = usize::try_from(num(3)).unwrap();
+                mempool = Mempool::new(metrics, parked_max, 100_000);
+                ctx = Ctx::new();
+                known_accounts = known_accounts.max(accounts);
+                known_assets = known_assets.max(assets);
+                for asset in 0..known_assets {
+                    let denom = asset_denom(asset);
+                    fixture
+                        .state_mut()
+                        .put_ibc_asset(denom.clone().unwrap_trace_prefixed())
+                        .unwrap();
+                    fixture.state_mut().put_allowed_fee_asset(&denom).unwrap();
+                    if asset < assets {
+                        ctx.ibc_to_asset.insert(denom.to_ibc_prefixed(), asset);
+                        ctx.assets.push(denom);
+                    }
+                }
+                // reset the chain state of every account ever used (also those of earlier,
+                // larger cases: the fixture is shared)
+                for acct in 0..known_accounts {
+                    let key = account_key(acct);
+                    let address = key.address_bytes();
+                    fixture.state_mut().put_account_nonce(&address, 0).unwrap();
+                    for asset in 0..known_assets {
+                        fixture
+                            .state_mut()
+                            .put_account_balance(&address, &asset_denom(asset), 0)
+                            .unwrap();
+                    }
+                    if acct < accounts {
+                        ctx.addr_to_acct.insert(address, acct);
+                        ctx.accounts.push(key);
+                    }
+                }
+                fixture
+                    .state_mut()
+                    .put_fees(FeeComponents::<Transfer>::new(0, 0))
+                    .unwrap();
+                fixture
+                    .state_mut()
+                    .put_fees(FeeComponents::<InitBridgeAccount>::new(0, 0))
+                    .unwrap();
+                writeln!(out, "case {parked_max} {accounts} {assets}").unwrap();
+                continue;
+            }
+            "tx" => {
+                let id = u64::try_from(num(1)).unwrap();
+                let acct = usize::try_from(num(2)).unwrap();
+                let nonce = u32::try_from(num(3)).unwrap();
+                let group = u8::try_from(num(4)).unwrap();
+                let asset = usize::try_from(num(5)).unwrap();
+                let amount = num(6);
+                let fee_asset = usize::try_from(num(7)).unwrap();
+                if ctx.txs.contains_key(&id)
+                    || acct >= ctx.accounts.len()
+                    || !(1..=4).contains(&group)
+                    || asset >= ctx.assets.len()
+                    || fee_asset >= ctx.assets.len()
+                {
+                    "bad".to_string()
+                } else {
+                    let key = ctx.accounts[acct].clone();
+                    let address = key.address_bytes();
+                    // construction checks `nonce >= chain nonce` and the sudo authorisation:
+                    // satisfy them for the moment of construction only.
+                    let chain_nonce = fixture.state().get_account_nonce(&address).await.unwrap();
+                    fixture.state_mut().put_account_nonce(&address, 0).unwrap();
+                    fixture.state_mut().put_sudo_address(address).unwrap();
+                    fixture.state_mut().put_ibc_sudo_address(address).unwrap();
+                    let builder = fixture
+                        .checked_tx_builder()
+                        .with_signer(key)
+                        .with_nonce(nonce);
+                    let builder = match group {
+                        1 => builder.with_action(SudoAddressChange {
+                            new_address: derived_address(id, 0xA1),
+                        }),
+                        2 => builder
+                            .with_action(IbcRelayerChange::Addition(derived_address(id, 0xA2))),
+                        3 => {
+                            let mut rollup = [0xA3u8; 32];
+                            rollup[..8].copy_from_slice(&id.to_be_bytes());
+                            builder.with_action(InitBridgeAccount {
+                                rollup_id: RollupId::new(rollup),
+                                asset: ctx.assets[asset].clone(),
+                                fee_asset: ctx.assets[fee_asset].clone(),
+                                sudo_address: None,
+                                withdrawer_address: None,
+                            })
+                        }
+                        _ => builder.with_action(Transfer {
+                            to: derived_address(id, 0xA4),
+                            amount,
+                            asset: ctx.assets[asset].clone(),
+                            fee_asset: ctx.assets[fee_asset].clone(),
+                        }),
+                    };
+                    let tx = builder.build().await;
+                    fixture
+                        .state_mut()
+                        .put_account_nonce(&address, chain_nonce)
+                        .unwrap();
+                    let real_group = match tx.group() {
+                        astria_core::protocol::transaction::v1::action::group::Group::UnbundleableSudo => 1,
+                        astria_core::protocol::transaction::v1::action::group::Group::BundleableSudo => 2,
+                        astria_core::protocol::transaction::v1::action::group::Group::UnbundleableGeneral => 3,
+                        astria_core::protocol::transaction::v1::action::group::Group::BundleableGeneral => 4,
+                    };
+                    ctx.real_to_id.insert(*tx.id(), id);
+                    ctx.txs.insert(
+                        id,
+                        TxDef {
+                            tx,
+                            acct,
+                            group,
+                        },
+                    );
+                    format!("group{real_group}")
+                }
+            }
+            "bump" => {
+                let acct = usize::try_from(num(1)).unwrap();
+                let k = u32::try_from(num(2).min(u128::from(u32::MAX))).unwrap();
+                let address = ctx.accounts[acct].address_bytes();
+                let nonce = fixture.state().get_account_nonce(&address).await.unwrap();
+                let new_nonce = nonce.saturating_add(k);
+                fixture
+                    .state_mut()
+                    .put_account_nonce(&address, new_nonce)
+                    .unwrap();
+                format!("{new_nonce}")
+            }
+            "bal" => {
+                let acct = usize::try_from(num(1)).unwrap();
+                let asset = usize::try_from(num(2)).unwrap();
+                let address = ctx.accounts[acct].address_bytes();
+                fixture
+                    .state_mut()
+                    .put_account_balance(&address, &ctx.assets[asset], num(3))
+                    .unwrap();
+                "ok".to_string()
+            }
+            "fee" => {
+                fixture
+                    .state_mut()
+                    .put_fees(FeeComponents::<Transfer>::new(num(1), 0))
+                    .unwrap();
+                fixture
+                    .state_mut()
+                    .put_fees(FeeComponents::<InitBridgeAccount>::new(num(2), 0))
+                    .unwrap();
+                "ok".to_string()
+            }
+            "ins" => {
+                let id = u64::try_from(num(1)).unwrap();
+                if let Some(def) = ctx.txs.get(&id) {
+                    set_sudo_for(&mut fixture, def, &ctx).await;
+                    let bytes = def.tx.encoded_bytes().clone();
+                    let outcome = AssertUnwindSafe(check_tx(
+                        bytes,
+                        fixture.state(),
+                        &mempool,
+                        metrics,
+                    ))
+                    .catch_unwind()
+                    .await;
+                    match outcome {
+                        Err(_) => "panic".to_string(),
+                        Ok(CheckTxOutcome::AddedToPending(_)) => "pending".to_string(),
+                        Ok(CheckTxOutcome::AddedToParked(_)) => "parked".to_string(),
+                        Ok(CheckTxOutcome::AlreadyInPending(_)) => "already_pending".to_string(),
+                        Ok(CheckTxOutcome::AlreadyInParked(_)) => "already_parked".to_string(),
+                        Ok(CheckTxOutcome::FailedChecks(_)) => "failedchecks".to_string(),
+                        Ok(CheckTxOutcome::FailedInsertion(error)) => {
+                            format!("err:{}", insertion_error_code(&error))
+                        }
+                        Ok(CheckTxOutcome::RemovedFromMempool {
+                            tx_id,
+                            reason,
+                        }) => {
+                            // what `handle_check_tx_request` does with this outcome
+                            mempool.remove_from_removal_cache(&tx_id).await;
+                            format!("removed:{}", reason_code(&reason))
+                        }
+                        Ok(CheckTxOutcome::InternalError(_)) => "internal".to_string(),
+                    }
+                } else {
+                    "undefined".to_string()
+                }
+            }
+            "insd" => {
+                let id = u64::try_from(num(1)).unwrap();
+                if let Some(def) = ctx.txs.get(&id) {
+                    if mempool.transaction_status(def.tx.id()).await.is_some() {
+                        "skip".to_string()
+                    } else {
+                        // as `service::mempool::insert_into_mempool`
+                        let address = ctx.accounts[def.acct].address_bytes();
+                        let nonce = fixture.state().get_account_nonce(&address).await.unwrap();
+                        let costs = def.tx.total_costs(fixture.state()).await.unwrap();
+                        let balances = get_account_balances(fixture.state(), &address)
+                            .await
+                            .unwrap();
+                        let outcome = AssertUnwindSafe(mempool.insert(
+                            def.tx.clone(),
+                            nonce,
+                            &balances,
+                            costs,
+                        ))
+                        .catch_unwind()
+                        .await;
+                        match outcome {
+                            Err(_) => "panic".to_string(),
+                            Ok(Ok(InsertionStatus::AddedToPending)) => "pending".to_string(),
+                            Ok(Ok(InsertionStatus::AddedToParked)) => "parked".to_string(),
+                            Ok(Err(error)) => format!("err:{}", insertion_error_code(&error)),
+                        }
+                    }
+                } else {
+                    "undefined".to_string()
+                }
+            }
+            "rm" => {
+                let id = u64::try_from(num(1)).unwrap();
+                if let Some(def) = ctx.txs.get(&id) {
+                    let outcome = AssertUnwindSafe(mempool.remove_tx_invalid(
+                        def.tx.clone(),
+                        RemovalReason::FailedExecution("verif".to_string()),
+                    ))
+                    .catch_unwind()
+                    .await;
+                    if outcome.is_err() { "panic" } else { "ok" }.to_string()
+                } else {
+                    "undefined".to_string()
+                }
+            }
+            "maint" => {
+                let recost = num(1) != 0;
+                let height = u64::try_from(num(2)).unwrap();
+                let results: HashMap<TransactionId, Arc<ExecTxResult>> = toks[3..]
+                    .iter()
+                    .filter_map(|tok| ctx.txs.get(&tok.parse::<u64>().unwrap()))
+                    .map(|def| (*def.tx.id(), Arc::new(ExecTxResult::default())))
+                    .collect();
+                let outcome = AssertUnwindSafe(mempool.run_maintenance(
+                    fixture.state(),
+                    recost,
+                    results,
+                    height,
+                ))
+                .catch_unwind()
+                .await;
+                if outcome.is_err() { "panic" } else { "ok" }.to_string()
+            }
+            other => panic!("unknown op {other}"),
+        };
+        writeln!(out, "{} res={res} | {}", toks.join(" "), dump(&ctx, &mempool).await).unwrap();
+    }
+    std::fs::write(std::env::var("VERIF_OUT").expect("VERIF_OUT"), out).unwrap();
+}
